@@ -1,5 +1,5 @@
 use proc_macro2::{Ident, TokenStream};
-use syn::{DeriveInput, Path, Type};
+use syn::{ext::IdentExt, DeriveInput, Path, Type};
 
 use crate::common::fresh::{fresh_ident, trait_attribute_tokens};
 
@@ -46,12 +46,14 @@ pub(crate) fn borrow_for_builder(ast: &DeriveInput, ty: &Type) -> TokenStream {
         // a type parameter that is declared `?Sized` (inline or in the where-clause)
         Type::Path(ty) if ty.qself.is_none() => match ty.path.get_ident() {
             Some(ident) => {
+                // (`r#T` and `T` are the same name)
                 ast.generics.type_params().any(|param| {
-                    param.ident == *ident && maybe_unsized(param.bounds.iter())
+                    param.ident.unraw() == ident.unraw() && maybe_unsized(param.bounds.iter())
                 }) || ast.generics.where_clause.as_ref().map_or(false, |where_clause| {
                     where_clause.predicates.iter().any(|predicate| match predicate {
                         syn::WherePredicate::Type(predicate) => {
-                            matches!(&predicate.bounded_ty, Type::Path(bounded) if bounded.qself.is_none() && bounded.path.is_ident(ident))
+                            matches!(&predicate.bounded_ty, Type::Path(bounded) if bounded.qself.is_none()
+                                && bounded.path.get_ident().map_or(false, |bounded| bounded.unraw() == ident.unraw()))
                                 && maybe_unsized(predicate.bounds.iter())
                         },
                         _ => false,
